@@ -339,6 +339,15 @@ class TermEval:
             return None
         st = mod.toplevel.get(name)
         value = getattr(st, "value", None)
+        scalar = isinstance(value, ast.Constant) and isinstance(value.value, (int, float, str)) and not isinstance(value.value, bool) or (
+            isinstance(value, ast.UnaryOp) and isinstance(value.op, ast.USub) and isinstance(value.operand, ast.Constant) and isinstance(value.operand.value, (int, float)))
+        if isinstance(st, (ast.Assign, ast.AnnAssign)) and scalar:
+            # a module-level number / text bound exactly once (`_INSIDE_VALUE = 1`): the name reads as the literal
+            bindings = [n for n in ast.walk(mod.tree) if isinstance(n, ast.Name) and n.id == name and isinstance(n.ctx, (ast.Store, ast.Del))]
+            rebinds = [n for n in ast.walk(mod.tree) if isinstance(n, (ast.Global, ast.Nonlocal)) and name in n.names]
+            if len(bindings) != 1 or rebinds:
+                return None
+            return value.value if isinstance(value, ast.Constant) else -value.operand.value
         if not isinstance(st, (ast.Assign, ast.AnnAssign)) or not isinstance(value, (ast.Tuple, ast.Set, ast.List, ast.Call)):
             return None
         for n in ast.walk(value):
@@ -564,6 +573,9 @@ class TermEval:
                 if rec is not None:
                     # a method of the record class (`masses.sum_of_squares`): bound to the record
                     m = self.tree.lookup_method(rec[0], a)
+                    if m is not None and any(unparse(d).split(".")[-1] in {"property", "cached_property"} for d in m.node.decorator_list) and len(m.params) == 1:
+                        base = self.eval_function(m, [base])  # a property of the record: what its body returns for this record
+                        continue
                     if m is not None and not any(unparse(d).split(".")[-1] in {"property", "cached_property", "classmethod"} for d in m.node.decorator_list):
                         base = Bound(m.qual, None if any(unparse(d) == "staticmethod" for d in m.node.decorator_list) else base)
                         continue
@@ -612,6 +624,9 @@ class TermEval:
                 return Tup(base.items[lo:hi:step])
             if isinstance(base, Opaque) and isinstance(base.key, str) and not isinstance(base.key, bool):
                 return Opaque(base.key[lo:hi:step])
+            rec = self.record_of(base)
+            if rec is not None and any(b.split(".")[-1] == "NamedTuple" for b in rec[0].bases):
+                return Tup([v for _f, v in rec[1]][lo:hi:step])  # a NamedTuple slices like the tuple of its fields
             raise ExtractionError(f"slice `{unparse(node)[:50]}` of a value that is not a tuple / list / string")
         idx = self.ev(node.slice, env, fn, depth)
         if self.record_of(base) is not None and isinstance(idx, RF) and idx.is_const():
